@@ -180,6 +180,27 @@ def _exec_module(fullname, path, tree, inject):
 class World(object):
     pass
 
+_IR_MISC = None
+def _ir_misc_solvers(shim, sym):
+    global _IR_MISC
+    if _IR_MISC is not None: return _IR_MISC
+    import tempfile, shutil, z3
+    from vp.llsym import ir, scen_misc
+    work = tempfile.mkdtemp(prefix='vp.irms.', dir='/var/tmp')
+    try:
+        ll = ir.compile_to_ir(os.path.join(REPO, 'src', 'C', 'misc_solvers.c'), REPO, work)
+        irmod = ir.Module(open(ll).read())
+    finally:
+        shutil.rmtree(work, True)
+    def set_cell(o, i, new):
+        o._w(); o.v[i] = sym.SymReal(new)
+    hooks = {'T': sym.T, 'wrap': lambda t: sym.SymReal(t) if z3.is_expr(t) else float(t),
+             'sqrt': lambda t: sym.T(sym.sym_sqrt(sym.SymReal(t) if z3.is_expr(t) else t)),
+             'is_matrix': lambda o: isinstance(o, shim.matrix), 'set': set_cell,
+             'decide': lambda c: sym.CTX.decide(c)}
+    _IR_MISC = scen_misc.make_module(irmod, hooks)
+    return _IR_MISC
+
 def load(mode, use_c=None, transform_solvers=True, modules=('misc', 'coneprog', 'cvxprog', 'solvers', 'modeling'),
          inject_builtins=True, conelp_tail=False):
     """Returns a World with attributes matrix, spmatrix, base, blas, lapack, misc, coneprog,
@@ -205,7 +226,12 @@ def load(mode, use_c=None, transform_solvers=True, modules=('misc', 'coneprog', 
         if inject_builtins:
             inject = {'max': sym.sym_max, 'min': sym.sym_min}
         if use_c is None: use_c = False
-        if use_c: raise HarnessError('compiled kernels are not available in the symbolic world')
+        if use_c == 'ir':
+            # the compiled kernels of misc_solvers.c, executed from their LLVM IR on the shim's symbolic cells (engine L inside engine P)
+            ms = _ir_misc_solvers(shim, sym)
+            dummies['misc_solvers'] = ms; pkg.misc_solvers = ms; sys.modules['cvxopt.misc_solvers'] = ms
+            use_c = True
+        elif use_c: raise HarnessError('compiled kernels are available in the symbolic world only as use_c="ir"')
         W.pkg = pkg
     else:
         import cvxopt
